@@ -234,6 +234,7 @@ func readSnap(cl db.Client) (*dbSnap, error) {
 // ---- protocol ----
 type req struct {
 	Op     string `json:"op"`
+	Name   string `json:"name,omitempty"`
 	K      int    `json:"k,omitempty"`
 	Mode   string `json:"mode,omitempty"`
 	Update *upd   `json:"update,omitempty"`
@@ -365,6 +366,9 @@ func childMain() {
 				continue
 			}
 			out.Encode(resp{OK: true, Snap: s})
+		case "failnext":
+			hc.SetFailNext(q.Name, fmt.Errorf("verif: connector refuses %s", q.Name))
+			out.Encode(resp{OK: true})
 		case "calls":
 			out.Encode(resp{OK: true, Calls: hc.TakeCalls()})
 		case "quit":
